@@ -516,7 +516,9 @@ double iwstrtod(const char *str, char **end) {
       }
       e = (*p++ - '0');
       while (*p && iwchars_is_digit(*p)) {
-        e = e * 10 + (*p - '0');
+        if (e < 100000) { // any larger exponent over/underflows anyway; do not overflow `e` itself
+          e = e * 10 + (*p - '0');
+        }
         ++p;
       }
       e *= sign;
